@@ -47,6 +47,30 @@ GROUPS = {
                state={"self._neighborhood_cache": ("D", ("T", I2, "Bool", "Bool", "Int"), ("L", I2))}),
         ],
     },
+    "Devs": {
+        "namespace": "Mesa.Devs.GenFn",
+        "path": "MesaModel/Gen/FnDevs.lean",
+        "imports": ("MesaModel.Model.Devs", "MesaModel.Model.Heap"),
+        "recs": [
+            # SimulationEvent is the model's own event record: the attribute ↦ field correspondence is stated here
+            Rec("SimEvent", {"time": "Int", "priority": "Int", "unique_id": "Int", "_canceled": "Bool"}, extern="Mesa.Devs.Ev",
+                access={"time": "{}.time", "priority": "({}.prio : Int)", "unique_id": "({}.id : Int)", "_canceled": "{}.cancelled"},
+                literal="({{ time := {time}, prio := ({priority} : Int).toNat, id := ({unique_id} : Int).toNat, tag := 0, "
+                        "isStep := false, cancelled := {_canceled}, dead := false, act := 0 }} : Mesa.Devs.Ev)"),
+            Rec("EventList", {"_events": ("L", ("R", "SimEvent"))}),
+        ],
+        "fns": [
+            Fn("C14", "mesa/experimental/devs/eventlist.py", "SimulationEvent.CANCELED", "CANCELED", {}, self_rec="SimEvent"),
+            Fn("C14", "mesa/experimental/devs/eventlist.py", "SimulationEvent.__lt__", "lt", {"other": ("R", "SimEvent")},
+               self_rec="SimEvent"),
+            Fn("C14", "mesa/experimental/devs/eventlist.py", "EventList.add_event", "add_event", {"event": ("R", "SimEvent")},
+               self_rec="EventList", state={"self._events": ("L", ("R", "SimEvent"))}, order="lt"),
+            Fn("C14", "mesa/experimental/devs/eventlist.py", "EventList.pop_event", "pop_event", {}, self_rec="EventList",
+               state={"self._events": ("L", ("R", "SimEvent"))}, order="lt", fuel=True, props={"CANCELED": "CANCELED"}),
+            Fn("C14", "mesa/experimental/devs/eventlist.py", "EventList.__len__", "len_", {}, self_rec="EventList"),
+            Fn("C14", "mesa/experimental/devs/eventlist.py", "EventList.is_empty", "is_empty", {}, self_rec="EventList"),
+        ],
+    },
 }
 
 REGISTRY = {
@@ -55,6 +79,15 @@ REGISTRY = {
         "functions": ["_Grid.out_of_bounds", "_Grid.torus_adj"],
         "lean_modules": ["MesaModel.Proofs.XlateLegacy"],
         "theorems": ["Mesa.Legacy." + t for t in ("C08_gen_out_of_bounds_eq_model", "C08_gen_torus_adj_eq_model")],
+    },
+    "C14": {
+        "groups": ["Devs"],
+        "functions": ["SimulationEvent.CANCELED", "SimulationEvent.__lt__", "EventList.add_event", "EventList.pop_event",
+                      "EventList.__len__", "EventList.is_empty"],
+        "lean_modules": ["MesaModel.Proofs.XlateDevs"],
+        "theorems": ["Mesa.Devs." + t for t in (
+            "C14_gen_CANCELED_eq_model", "C14_gen_lt_eq_model", "C14_gen_add_event_eq_model", "C14_gen_pop_event_eq_model",
+            "C14_gen_len_eq_model", "C14_gen_is_empty_eq_model", "C14_add_event_generated", "C14_pop_event_generated")],
     },
     "C09": {
         "groups": ["Legacy"],
